@@ -183,7 +183,7 @@ def java_cmd(main: str, jvm: list[str] | None = None) -> list[str]:
     return [
         "java",
         "-XX:+UseParallelGC",
-        *(jvm or ["-Xmx6g"]),
+        *(jvm or ["-Xmx6g", "-Xss64m"]),
         "-cp",
         f"{JAR}:{DEPS}",
         main,
@@ -254,8 +254,11 @@ def run(
     res = TLCResult(rc=p.returncode, stdout=p.stdout, wall_s=time.time() - t0, cmd=cmd)
     _parse(res)
     if check and res.violated is None and res.rc != 0:
-        tail = "\n".join(res.stdout.splitlines()[-40:])
-        raise MachineryError(f"TLC failed (rc={res.rc}) on {spec} {cfg}:\n{tail}")
+        i = res.stdout.find("Error:")
+        if i < 0:
+            i = res.stdout.find("Exception")
+        body = res.stdout[i : i + 2500] if i >= 0 else "\n".join(res.stdout.splitlines()[-40:])
+        raise MachineryError(f"TLC failed (rc={res.rc}) on {spec} {cfg}:\n{body}")
     return res
 
 
